@@ -216,6 +216,7 @@ package types
 //@ trusted uses sort.Slice (reflection-based swapping), outside the verified subset; bounded conformance test in the thorough tier
 //@ modifies *bids
 //@ ensures [C03] same-bids-reordered: len(bids) == old(len(bids)) && forall(m, int, 0 <= m && m < len(bids) ==> exists(k, int, 0 <= k && k < len(bids) && bids[m] == old(bids[k]))) && forall(k, int, 0 <= k && k < len(bids) ==> exists(m, int, 0 <= m && m < len(bids) && bids[m] == old(bids[k])))
+//@ ensures [C03,C16] distinct-ids-stay-distinct: old(forall(i, int, forall(j, int, 0 <= i && i < j && j < len(bids) ==> bids[i].Id != bids[j].Id))) ==> forall(i, int, forall(j, int, 0 <= i && i < j && j < len(bids) ==> bids[i].Id != bids[j].Id))
 //@ ensures [C03] prices-strictly-descending: sortedDesc(prices) && len(prices) <= len(bids)
 //@ ensures [C03] every-level-has-its-group: forall(i, int, 0 <= i && i < len(prices) ==> has(bidsByPrice, decStr(prices[i])) && len(bidsByPrice[decStr(prices[i])]) >= 1)
 //@ ensures [C03] every-group-entry-is-a-bid-at-that-price: forall(i, int, forall(j, int, 0 <= i && i < len(prices) && 0 <= j && j < len(bidsByPrice[decStr(prices[i])]) ==> bidsByPrice[decStr(prices[i])][j].Price == prices[i] && exists(k, int, 0 <= k && k < len(bids) && bidsByPrice[decStr(prices[i])][j] == old(bids[k]))))
